@@ -338,7 +338,7 @@ func allBMP() []uint32 {
 func runC09(c *mon.Ctx) {
 	// ------------------------------------------------------------------
 	// format 4: library encoder
-	c.Stratum("fmt4", c.N(2400, 200000), func(k *mon.Case) { c09fmt4(k, 0) })
+	c.Stratum("fmt4", c.N(2400, 120000), func(k *mon.Case) { c09fmt4(k, 0) })
 	// maps close to the 64 KiB limit; the dense ones cost the library's
 	// encoder about 10 s each, so there are few of them
 	c.Stratum("fmt4-limit", c.N(32, 640), func(k *mon.Case) { c09fmt4(k, 2+k.Index%2) })
@@ -348,7 +348,7 @@ func runC09(c *mon.Ctx) {
 
 	// ------------------------------------------------------------------
 	// format 12: library encoder
-	c.Stratum("fmt12", c.N(1200, 100000), func(k *mon.Case) {
+	c.Stratum("fmt12", c.N(1200, 60000), func(k *mon.Case) {
 		r := k.Rng
 		m := c09format12(r)
 		lang := uint16(0)
@@ -464,7 +464,7 @@ func runC09(c *mon.Ctx) {
 
 	// ------------------------------------------------------------------
 	// spec-side format 4
-	c.Stratum("spec4", c.N(1400, 100000), func(k *mon.Case) { c09spec4(k) })
+	c.Stratum("spec4", c.N(1400, 80000), func(k *mon.Case) { c09spec4(k) })
 	c.Require("spec4:delta+offset", "spec4:shared-array", "spec4:overlapping-windows", "spec4:explicit-zero",
 		"spec4:final-delta1", "spec4:final-array-zero", "spec4:final-in-range", "spec4:final-maps-ffff",
 		"spec4:unused-array-entries", "spec4:delta-wraps", "spec4:mac")
@@ -478,7 +478,7 @@ func runC09(c *mon.Ctx) {
 	c.Require("spec12:single-code-groups", "spec12:maximal-group", "spec12:gid-ends-ffff", "spec12:adjacent-groups", "spec12:start-glyph-0")
 
 	// tables
-	c.Stratum("table", c.N(1500, 100000), func(k *mon.Case) { c09table(k) })
+	c.Stratum("table", c.N(1500, 60000), func(k *mon.Case) { c09table(k) })
 	c.Require("table:shared", "table:mac-languages", "table:spec-side", "table:platform-4", "table:single", "table:empty")
 
 	// InstallCMap: encoding ids follow the code range, both keys share the subtable
